@@ -125,7 +125,7 @@ pub open spec fn intersects(r: ZoomRecord, chrom: u32, start: u32, end: u32) -> 
 //@sub /\*known_offset = block\.offset \+ block\.size;\n/ => "" min=1
 //@sub /Result<std::vec::IntoIter<ZoomRecord>, BBIReadError>/ => Result<Vec<ZoomRecord>, IoError> min=1
 //@sub /Ok\(records\.into_iter\(\)\)/ => Ok(records) min=1
-//@sub /assert\(\(len % \(4 \* 8\)\) == \(0\)\)/ => assert((len % (4usize * 8)) == (0)) min=1
+//@sub /assert\(\(len % \(4 \* 8\)\) == \(0\)\)/ => assert(((len as int) % (4int * 8)) == (0)) min=1
 //@sub /for _ in 0\.\.itemcount/ => for k__ in 0..itemcount min=2
 //@ret r
 //@sig
@@ -164,10 +164,8 @@ pub open spec fn intersects(r: ZoomRecord, chrom: u32, start: u32, end: u32) -> 
                     records@ == zoom_sel(false, data@, k__ as int, chrom, start, end),
 //@at /let chrom_id = bytes\.get_u32\(\);/ before
                 proof { float_ax::float_det(); }
-                let ghost r0 = bytes.rem();
 //@at /let chrom_id = bytes\.get_u32_le\(\);/ before
                 proof { float_ax::float_det(); }
-                let ghost r0 = bytes.rem();
 //@at /if chrom_id == chrom && chrom_end >= start && chrom_start <= end \{/ nth=1 before
                 proof {
                     assert(bytes.rem() =~= data@.subrange(32 * (k__ + 1), data@.len() as int));
